@@ -373,3 +373,92 @@ func init() {
 		return Val{S: and(not(eq(args[0].S, "inil")), eq("(itag "+args[0].S+")", fmt.Sprint(x.q.typeID(types.Typ[types.String])))), T: types.Typ[types.Bool]}, nil
 	}
 }
+
+// ---- k8s.io/apimachinery/pkg/util/sets.String: a Go map[string]Empty, modelled with the ordinary map heaps ----
+func init() {
+	pfx := "(k8s.io/apimachinery/pkg/util/sets.String)."
+	mapT := func(c *ssa.CallCommon, i int) *types.Map {
+		mt, _ := c.Args[i].Type().Underlying().(*types.Map)
+		return mt
+	}
+	emptyVal := func(x *FnExec, mt *types.Map) string { return x.q.zero(mt.Elem()) }
+	regLib("k8s.io/apimachinery/pkg/util/sets.NewString", func(x *FnExec, fr *frame, n *node, in ssa.Instruction, c *ssa.CallCommon, args []Val, reach, hint string) (Val, error) {
+		rt := resultType(in, c)
+		mt := rt.Underlying().(*types.Map)
+		r := x.freshRef(n.st, "set", reach)
+		x.mapInit(n.st, mt, r)
+		if k, ok := x.constLen(c.Args[0]); ok && k <= 8 {
+			hn, hs := x.elemHeap(types.Typ[types.String])
+			for j := int64(0); j < k; j++ {
+				el := sel(sel(x.heapGet(n.st, hn, hs), "(s_arr "+args[0].S+")"), x.arith("+", "(s_off "+args[0].S+")", x.ilit(j), tInt))
+				x.mapStore(n.st, mt, r, el, emptyVal(x, mt))
+			}
+		} else if cst, isC := c.Args[0].(*ssa.Const); !(isC && cst.Value == nil) {
+			// unknown initial members: contents arbitrary
+			d, _, l, _, _ := x.mapHeaps(mt)
+			x.heapHavoc(n.st, d)
+			x.heapHavoc(n.st, l)
+		}
+		return Val{S: r, T: rt}, nil
+	})
+	regLib(pfx+"Has", func(x *FnExec, fr *frame, n *node, in ssa.Instruction, c *ssa.CallCommon, args []Val, reach, hint string) (Val, error) {
+		return Val{S: x.q.define(hint, "Bool", x.mapHas(n.st, mapT(c, 0), args[0].S, args[1].S)), T: types.Typ[types.Bool]}, nil
+	})
+	regLib(pfx+"Len", func(x *FnExec, fr *frame, n *node, in ssa.Instruction, c *ssa.CallCommon, args []Val, reach, hint string) (Val, error) {
+		return Val{S: x.q.define(hint, x.q.intSort(), x.mapLen(n.st, mapT(c, 0), args[0].S)), T: tInt}, nil
+	})
+	regLib(pfx+"Insert", func(x *FnExec, fr *frame, n *node, in ssa.Instruction, c *ssa.CallCommon, args []Val, reach, hint string) (Val, error) {
+		mt := mapT(c, 0)
+		if k, ok := x.constLen(c.Args[1]); ok && k <= 8 {
+			hn, hs := x.elemHeap(types.Typ[types.String])
+			for j := int64(0); j < k; j++ {
+				el := sel(sel(x.heapGet(n.st, hn, hs), "(s_arr "+args[1].S+")"), x.arith("+", "(s_off "+args[1].S+")", x.ilit(j), tInt))
+				x.mapStore(n.st, mt, args[0].S, el, emptyVal(x, mt))
+			}
+		} else {
+			// unknown number of new members: the set only grows
+			d, _, l, ks, _ := x.mapHeaps(mt)
+			ds := fmt.Sprintf("(Array Ref (Array %s Bool))", ks)
+			old := sel(x.heapGet(n.st, d, ds), args[0].S)
+			nd := x.q.freshConst(hint+"_dom", fmt.Sprintf("(Array %s Bool)", ks))
+			x.q.assert(fmt.Sprintf("(forall ((|k?ins| %s)) (! (=> (select %s |k?ins|) (select %s |k?ins|)) :pattern ((select %s |k?ins|))))", ks, old, nd, nd))
+			x.heapSet(n.st, d, ds, sto(x.heapGet(n.st, d, ds), args[0].S, nd))
+			x.heapHavoc(n.st, l)
+		}
+		return Val{S: args[0].S, T: resultType(in, c)}, nil
+	}).writes = func(x *FnExec, c *ssa.CallCommon, out map[string]bool) {
+		if mt := mapT(c, 0); mt != nil {
+			d, v, l, ks, vs := x.mapHeaps(mt)
+			x.q.heapDecl(d, fmt.Sprintf("(Array Ref (Array %s Bool))", ks))
+			x.q.heapDecl(v, fmt.Sprintf("(Array Ref (Array %s %s))", ks, vs))
+			x.q.heapDecl(l, fmt.Sprintf("(Array Ref %s)", x.q.intSort()))
+			out[d], out[v], out[l] = true, true, true
+		}
+	}
+	regLib(pfx+"Intersection", func(x *FnExec, fr *frame, n *node, in ssa.Instruction, c *ssa.CallCommon, args []Val, reach, hint string) (Val, error) {
+		mt := mapT(c, 0)
+		r := x.freshRef(n.st, "set", reach)
+		x.mapInit(n.st, mt, r)
+		d, _, l, ks, _ := x.mapHeaps(mt)
+		ds := fmt.Sprintf("(Array Ref (Array %s Bool))", ks)
+		h := x.heapGet(n.st, d, ds)
+		nd := x.q.freshConst(hint+"_dom", fmt.Sprintf("(Array %s Bool)", ks))
+		x.q.assert(fmt.Sprintf("(forall ((|k?int| %s)) (! (= (select %s |k?int|) (and (select (select %s %s) |k?int|) (select (select %s %s) |k?int|))) :pattern ((select %s |k?int|))))", ks, nd, h, args[0].S, h, args[1].S, nd))
+		x.heapSet(n.st, d, ds, sto(h, r, nd))
+		x.heapHavoc(n.st, l)
+		return Val{S: r, T: resultType(in, c)}, nil
+	})
+	regLib(pfx+"List", func(x *FnExec, fr *frame, n *node, in ssa.Instruction, c *ssa.CallCommon, args []Val, reach, hint string) (Val, error) {
+		mt := mapT(c, 0)
+		res := x.havocVal(hint, resultType(in, c), reach)
+		hn, hs := x.elemHeap(types.Typ[types.String])
+		arr := x.q.freshConst(hint+"_arr", fmt.Sprintf("(Array %s Str)", x.q.intSort()))
+		x.q.assert(eq(arr, sel(x.heapGet(n.st, hn, hs), "(s_arr "+res.S+")")))
+		d, _, _, ks, _ := x.mapHeaps(mt)
+		dom := sel(x.heapGet(n.st, d, fmt.Sprintf("(Array Ref (Array %s Bool))", ks)), args[0].S)
+		// every listed element is a member (and the list is as long as the set)
+		x.q.assert(fmt.Sprintf("(forall ((|i?lst| %s)) (! (=> (and (>= |i?lst| (s_off %s)) (< |i?lst| (+ (s_off %s) (s_len %s)))) (select %s (select %s |i?lst|))) :pattern ((select %s |i?lst|))))", x.q.intSort(), res.S, res.S, res.S, dom, arr, arr))
+		x.q.assert(eq("(s_len "+res.S+")", x.mapLen(n.st, mt, args[0].S)))
+		return res, nil
+	})
+}
